@@ -66,6 +66,7 @@ package referenceserver
 // have set is removed and the snapshot taken before the handler ran is restored.
 // rawErr[0] is the (discarded) result of the body encoder.
 //@ func (*rawResponseWriter).finish
+//@   option rangedelete
 //@   requires r != nil && r.respWriter != nil && !held[r.mu] && snapshotHeaders != nil && hAddN[0] >= 0
 //@   requires snapshotHeaders != rwHeaderOf(r.respWriter) //# the snapshot is a clone taken before the handler ran
 //@   requires r.rawResp != nil ==> wfRawResponse(r.rawResp)
